@@ -391,7 +391,9 @@ func (p *ClientProcessor) OnProto(parser *Parser, proto string) error {
 func (p *ClientProcessor) OnStatus(parser *Parser, code int, status string) {
 	p.response.StatusCode = code
 	p.response.Status = status
-	if p.conn != nil && p.conn.nextIsHead() {
+	// an interim response is not the answer to the pending request.
+	interim := code/100 == 1 && code != http.StatusSwitchingProtocols
+	if !interim && p.conn != nil && p.conn.nextIsHead() {
 		parser.noBody = true
 	}
 }
@@ -436,6 +438,13 @@ func (p *ClientProcessor) OnTrailerHeader(parser *Parser, key, value string) {
 func (p *ClientProcessor) OnComplete(parser *Parser) {
 	res := p.response
 	p.response = nil
+
+	// an interim response (100 Continue, 103 Early Hints, ...) is followed by
+	// the response the request is waiting for.
+	if res.StatusCode/100 == 1 && res.StatusCode != http.StatusSwitchingProtocols {
+		releaseClientResponse(res)
+		return
+	}
 
 	// Fix #225
 	// Handle upgrade handshake response in the io goroutine to avoid concurrent issue:
